@@ -137,6 +137,89 @@ class C13(Check):
             self.count("ref_error_" + str(e)[:40].replace(" ", "_"))
         ctx.case(prog, self.nt, [prog["what"]])
 
+
+    # -- PKCS#7 padding of the CBC_PAD wrap formats: complete small-scope enumeration -------------------------------------------
+    def pad_cells(self):
+        """every padding length N of a block with (a) the valid padding, (b) each single padding byte replaced, (c) the length byte itself
+        replaced by 0 / N-1 / N+1 / blocksize+1 / 0xFF; for AES (16) and DES3 (8), two key-value lengths each"""
+        cells = []
+        for mname, bs in (("AES_CBC_PAD", 16), ("DES3_CBC_PAD", 8)):
+            for n in range(1, bs + 1):
+                cells.append(["padcell", mname, n, "valid", 0])
+                for j in range(n - 1):
+                    cells.append(["padcell", mname, n, "wrongbyte", j])
+                for v in ("zero", "minus1", "plus1", "bs_plus1", "ff"):
+                    cells.append(["padcell", mname, n, "lastbyte_" + v, 0])
+        return cells
+
+    def extra(self, ctx, tier, shard, nshards):
+        cells = self.pad_cells()
+        ctx.extra["pad_cells_total"] = len(cells) if shard == 0 else 0
+        for i, cell in enumerate(cells):
+            if i % nshards != shard:
+                continue
+            prog = {"what": "padcell", "cell": cell, "seed": 9, "iv": "5a" * 16, "wkey": i % 3}
+            try:
+                self.run_program(ctx, prog)
+            except Violation as v:
+                v.program = prog
+                return v
+        return None
+
+    def c_padcell(self, p):
+        _, mname, n, how, j = p["cell"]
+        bs = 16 if mname.startswith("AES") else 8
+        self._desc = "unwrap %s, padding length %d, %s%s" % (mname, n, how, (" at %d" % j) if how == "wrongbyte" else "")
+        wh, uh, ref_wrap, ref_unwrap, mech = self.wrapper(p, mname)
+        iv = bytes.fromhex(p["iv"])[:bs]
+        # the key value fills the rest of two blocks: 2*bs - n bytes (>= bs), so every N is a legal padding of a generic secret
+        val = bytes((0x21 + i * 7) & 0xFF for i in range(2 * bs - n))
+        pad = bytearray([n] * n)
+        valid = how == "valid"
+        if how == "wrongbyte":
+            pad[j] ^= 0x01
+        elif how.startswith("lastbyte_"):
+            v = {"zero": 0, "minus1": n - 1, "plus1": n + 1, "bs_plus1": bs + 1, "ff": 0xFF}[how[9:]]
+            if v == n:
+                return
+            pad[-1] = v
+            if v == n + 1 and n + 1 <= bs and all(b == n + 1 for b in (val + bytes(pad))[-(n + 1):]):
+                return          # would be a valid padding of another length
+            if 0 < v < n:
+                # ... v bytes of value v at the end? only then it is a valid (shorter) padding: not the case here, the byte before is n
+                if v == 1:
+                    valid = "shorter"    # a single 0x01 at the end IS a valid padding of length 1: the value is then longer
+        plain = val + bytes(pad)
+        kek_alg = "AES" if bs == 16 else "3DES"
+        sd = p["seed"]
+        if bs == 16:
+            klen = [16, 24, 32][p["wkey"] % 3]
+            kek = bytes((sd + 0x40 + i * 3) & 0xFF for i in range(klen))
+        else:
+            kek = odd_parity(bytes((sd + 0x33 + i * 5) & 0xFF for i in range(24)))
+        blob = self.ref.out("cipher", alg=kek_alg, mode="CBC", dir="enc", key=kek, iv=iv, data=plain)
+        utpl = T(("CKA_CLASS", "CKO_SECRET_KEY"), ("CKA_KEY_TYPE", "CKK_GENERIC_SECRET"), ("CKA_TOKEN", False), ("CKA_PRIVATE", False), ("CKA_SENSITIVE", False),
+                 ("CKA_EXTRACTABLE", True))
+        before = self.nobjects()
+        r = self.w.C_UnwrapKey(s=self.s, mech=mech, key=uh, data=blob.hex(), tpl=utpl)
+        self.nt = True
+        if valid is True or valid == "shorter":
+            want = val if valid is True else plain[:-1]
+            if r["rv"] != K.CKR_OK:
+                raise self.V("a blob with a valid PKCS#7 padding is refused: %s" % K.rvname(r["rv"]))
+            got = self.read(r["h"], ["CKA_VALUE"])["CKA_VALUE"]
+            if got != want:
+                raise self.V("unwrapped value is %s.. (%d bytes), the padded plaintext carries %s.. (%d bytes)" % ((got or b"").hex()[:40], len(got or b""), want.hex()[:40], len(want)))
+            self.count("padding_valid_accepted")
+            self.w.C_DestroyObject(s=self.s, o=r["h"])
+            return
+        if r["rv"] == K.CKR_OK:
+            got = self.read(r["h"], ["CKA_VALUE"])["CKA_VALUE"]
+            raise self.V("a blob whose PKCS#7 padding is malformed (plaintext ends in %s) was unwrapped into a %d-byte key" % (plain[-(n + 1):].hex(), len(got or b"")))
+        if self.nobjects() != before:
+            raise self.V("a rejected malformed blob left an object behind")
+        self.count("padding_malformed_rejected")
+
     # -- material ---------------------------------------------------------------------------------------
     def target(self, p):
         """-> (handle, kind, secret bytes or None, pkcs8 components or None, unwrap template)"""
